@@ -631,8 +631,8 @@ func (c *c43ctx) feed(rc *c43rec, P []byte, rest func() string) {
 }
 
 // plaintext = data || MAC(data) || pad, pad = padLen bytes of value padLen-1.
-func (rc *c43rec) plain(d, padLen int) []byte {
-	data := c43bytes(d, 13, byte(d))
+func (rc *c43rec) plain(d, padLen int, seed byte) []byte {
+	data := c43bytes(d, 13, byte(d)+seed*37)
 	P := append([]byte{}, data...)
 	P = append(P, c43mac(rc.s, rc.version, rc.macKey, rc.seq[:], 23, data, &rc.h)...)
 	for i := 0; i < padLen; i++ {
@@ -651,13 +651,17 @@ func (c *c43ctx) partB(rc *c43rec, d int, allVals bool) {
 			// no padding bytes at all: the last MAC byte is read as the length byte (hash decides);
 			// the reference decides what must happen.
 			if d+s.macSize > 0 {
-				P := rc.plain(d, 0)
+				P := rc.plain(d, 0, 0)
 				c.feed(rc, P, func() string { return "pad=0|nopad" })
 			}
 			continue
 		}
 		p := byte(padLen - 1)
-		P := rc.plain(d, padLen)
+		for seed := byte(1); seed < 8 && d > 0; seed++ { // other data (hence MAC) contents, valid record
+			Pv := rc.plain(d, padLen, seed)
+			c.feed(rc, Pv, func() string { return fmt.Sprintf("pad=%d|valid|seed=%d", padLen, seed) })
+		}
+		P := rc.plain(d, padLen, 0)
 		L := len(P)
 		c.feed(rc, P, func() string { return fmt.Sprintf("pad=%d|valid", padLen) })
 		// one wrong byte at every padding position
@@ -694,7 +698,7 @@ func (c *c43ctx) partB(rc *c43rec, d int, allVals bool) {
 	// bfe strips one byte on invalid padding, so the MAC check alone would pass; only the padding
 	// verdict can reject this record.
 	if (d+s.macSize+1)%s.bs == 0 {
-		P := rc.plain(d, 1)
+		P := rc.plain(d, 1, 0)
 		L := len(P)
 		for q := 1; q < 256; q++ {
 			P[L-1] = byte(q)
@@ -729,6 +733,7 @@ func TestVerifC43(t *testing.T) {
 		lens = append(lens, 1024, maxCiphertext)
 	}
 	pairMaxL := r.Pick(24, 48)
+	allValsMaxL := 300 // thorough: every one of the 255 wrong values up to this length, the 14-value set beyond
 	idx := 0
 	for li, L := range lens {
 		if r.Expired("partA") {
@@ -751,7 +756,7 @@ func TestVerifC43(t *testing.T) {
 					c.check(fn, nil, func() string { return "nil" })
 					continue
 				}
-				all := r.Thorough() && fn.checkContent && li < bigFrom
+				all := r.Thorough() && fn.checkContent && li < bigFrom && L <= allValsMaxL
 				c.partA(fn, L, byte(pi), all, pairMaxL)
 			}
 			c.flush()
@@ -817,13 +822,20 @@ func TestVerifC43(t *testing.T) {
 					continue
 				}
 				rc := c43newRec(s, v)
-				c.partB(rc, d, r.Thorough() && d < s.bs && v != VersionSSL30)
+				c.partB(rc, d, r.Thorough() && d < s.bs && v == VersionTLS12)
 				c.flush()
 			}
 		}
 	}
 
-	r.Sample(map[string]interface{}{"reference": "p=last byte; valid iff p+1<=len and last p+1 bytes == p; remove p+1", "example_valid": "0102030303 -> 0102 (good=255)", "example_invalid": "0102040303 -> good=0"})
+	if si, _ := r.Shard(); si == 0 && !r.Replaying() {
+		r.Sample("reference: p = last byte; valid iff p+1 <= len and the last p+1 bytes all equal p; then remove exactly p+1 bytes; else bad")
+		for _, in := range [][]byte{{1, 2, 3, 3, 3, 3}, {1, 2, 4, 3, 3, 3}, {9, 0}, {7, 7}, {}} {
+			out, good := removePadding(append([]byte{}, in...))
+			wantOK, wantRemove := c43ref(in, true)
+			r.Sample(map[string]interface{}{"payload": fmt.Sprintf("%x", in), "real_good": good, "real_removed": len(in) - len(out), "reference_valid": wantOK, "reference_remove": wantRemove})
+		}
+	}
 	r.Set("bounds", fmt.Sprintf("A1: lengths 0..%d + %v x last byte 0..255 x {valid, 1 wrong byte at every padding position (%s), 2 wrong bytes (L<=%d), all 256 values just outside, p at every farther position, too long} x fillers; A2: all byte strings len<=%d, all strings over {0..7,255} len<=%d; B: suites aes128-sha1/3des-sha1/sm4-sm3 x SSL3.0..TLS1.2 x data len 0..%d*blockSize+1 x every legal pad length (1..256) x {valid, 1 wrong pad byte at every position, every other length byte, MAC/data flips, MAC-fits-but-padding-invalid}",
-		maxL, lens[bigFrom:], map[bool]string{false: "14 values incl. every single-bit flip", true: "all 255 wrong values (first filler), 14 values otherwise"}[r.Thorough()], pairMaxL, fullN, alphaN, dMul))
+		maxL, lens[bigFrom:], map[bool]string{false: "14 values incl. every single-bit flip", true: "all 255 wrong values for L<=300 (first filler), 14 values otherwise"}[r.Thorough()], pairMaxL, fullN, alphaN, dMul))
 }
